@@ -24,8 +24,12 @@ else:
     rc, out = sh(f"git -C /repo worktree add -q --detach {wt} HEAD")
     assert rc == 0, out
 result = {"property": pid, "variant": var, "summary": meta.get("summary"), "needs_to_manifest": meta.get("needs_to_manifest"), "files_changed": meta.get("files_changed")}
+refactor = meta.get("kind") == "refactor"
+if refactor:
+    result["kind"] = "refactor"
+    result["why_behaviour_is_preserved"] = meta.get("why_behaviour_is_preserved")
 try:
-    demo = meta["demo_cmd"].replace(f"/tmp/wt/{pid}", wt).replace(f"/tmp/wt/out_{pid}", f"/tmp/wt/out_{pid}")
+    demo = meta.get("demo_cmd", "true").replace(f"/tmp/wt/{pid}", wt).replace(f"/tmp/wt/out_{pid}", f"/tmp/wt/out_{pid}")
     rc0, out0 = sh(demo)
     result["demo_without_change"] = "pass" if rc0 == 0 else "FAIL"
     rc, out = sh(f"git -C {wt} apply {src}/patch.diff")
@@ -49,6 +53,11 @@ try:
     result["demo_failure_excerpt"] = msg
     result["commands"] = [demo, tcmd, f"git apply patch.diff"]
     ok = rc0 == 0 and result["patch_applies"] and rcT == 0 and rc1 != 0
+    if refactor:
+        for k in ("demo_without_change", "demo_with_change", "demo_failure_excerpt"):
+            result.pop(k, None)
+        result["commands"] = [tcmd, "typecheck <module> ./...", "git apply patch.diff"]
+        ok = result["patch_applies"] and rcT == 0 and bool(result["typechecks"])
     result["confirmed"] = ok
 finally:
     if inplace:
@@ -61,7 +70,8 @@ if result.get("confirmed"):
     shutil.rmtree(dst, ignore_errors=True)
     os.makedirs(dst)
     shutil.copy(f"{src}/patch.diff", dst)
-    shutil.copytree(f"{src}/demo", f"{dst}/demo")
+    if os.path.isdir(f"{src}/demo"):
+        shutil.copytree(f"{src}/demo", f"{dst}/demo")
     json.dump(result, open(f"{dst}/meta.json", "w"), indent=1)
     print("KEPT", dst)
 else:
